@@ -166,9 +166,10 @@ def judge_neighbour(ctx, pattern, cur, nxt, desc):
 
 
 # ----------------------------------------------------------------------------- one monitored generate run
-def monitored_generate(ctx, pattern_factory, solver_cb, uniq_cb, score_cb, pretest_cb, desc, max_steps, penalty=None):
+def monitored_generate(ctx, pattern_factory, solver_cb, uniq_cb, score_cb, pretest_cb, desc, max_steps, penalty=None, pattern=None):
     rec = Rec()
-    pattern = pattern_factory()
+    pattern = pattern if pattern is not None else pattern_factory()
+    rec.pattern = pattern
     real_bng = GB.build_neighbor_generator
     cur_holder = {}
 
@@ -363,6 +364,7 @@ def run_scripted(ctx, rng, t):
     pre = (lambda p: h32(f"pre{salt}|{p!r}") % 4 != 0) if use_pre else None
     pen = (lambda p: h32(f"pen{salt}|{p!r}") % 3) if rng.random() < 0.3 else None
     outcomes = []
+    prev_pattern = None
     for rep in range(3):
         pyrandom.seed(1000 * rep + 17)  # Python's global random state differs between repetitions
         SR.use_deterministic_prng(True, seed=seed)
@@ -372,7 +374,9 @@ def run_scripted(ctx, rng, t):
             s0 = solver
             solver = lambda p, s0=s0: s0(copy.deepcopy(p))  # noqa: E731
         try:
-            res, rec = monitored_generate(ctx, fac, solver, uniq, score, pre, desc, max_steps, pen)
+            # repetition 2 reuses repetition 1's builder objects: builders must not carry state from one run to the next
+            res, rec = monitored_generate(ctx, fac, solver, uniq, score, pre, desc, max_steps, pen, pattern=(prev_pattern if rep == 2 else None))
+            prev_pattern = rec.pattern
         except Exception as e:
             ctx.violation(f"generate-raises:{type(e).__name__}:{kind}", f"generate_problem raised {e!r}", desc)
             SR.use_deterministic_prng(False)
